@@ -154,7 +154,9 @@ class World(object):
         self.lock_timeout = conf.get('lock_timeout', 1000)
         self.vclock = 'lock_timeout' in conf       # virtual clock for mapproxy.util.lock
         self.clock = time.time()
-        self.lenient = self.kind != 'file' or self.vclock
+        self.uncacheable = set(tuple(t) for t in conf.get('uncacheable') or [])
+        self.gate_cleanup = bool(conf.get('cleanup'))     # the periodic lock directory clean-up is run and gated
+        self.lenient = self.kind != 'file' or self.vclock or bool(self.uncacheable) or self.gate_cleanup
         self.substeps = self.kind == 'file-link'
         self.uniform = self.kind == 'file-link'
         self.procs = bool(conf.get('procs'))
@@ -192,7 +194,7 @@ class World(object):
         self.stale = []
         self.loc = {}
         self.decoy_loc = {}
-        if self.kind != 'sqlite':
+        if self.kind not in ('sqlite', 'compact'):
             for cache in self.caches:
                 self.mark_is_cached(cache)
             for z, (gw, gh) in enumerate(self.sizes):
@@ -208,6 +210,9 @@ class World(object):
         if self.kind == 'sqlite':
             from mapproxy.cache.mbtiles import MBTilesLevelCache
             return MBTilesLevelCache(self.cache_dir)
+        if self.kind == 'compact':
+            from mapproxy.cache.compact import CompactCacheV2
+            return CompactCacheV2(self.cache_dir)
         from mapproxy.cache.file import FileCache
         return FileCache(self.cache_dir, 'png', link_single_color_images=(self.kind == 'file-link'))
 
@@ -301,20 +306,24 @@ class World(object):
         from mapproxy.cache.tile import Tile
         out = {}
         extra = []
-        if self.kind == 'sqlite':
+        if self.kind in ('sqlite', 'compact'):
             try:
                 cache = self.make_cache()
                 for z, (gw, gh) in enumerate(self.sizes):
-                    if not os.path.exists(os.path.join(self.cache_dir, '%s.mbtile' % z)):
+                    if self.kind == 'sqlite' and not os.path.exists(os.path.join(self.cache_dir, '%s.mbtile' % z)):
                         continue
                     for x in range(gw):
                         for y in range(gh):
                             t = Tile((x, y, z))
                             if cache.load_tile(t) and t.source is not None:
-                                out[(x, y, z)] = decode_image(t.source.as_image())
-                cache.cleanup()
+                                try:
+                                    out[(x, y, z)] = decode_image(t.source.as_image())
+                                except Exception:  # noqa
+                                    out[(x, y, z)] = -4
+                if self.kind == 'sqlite':
+                    cache.cleanup()
             except Exception as ex:  # noqa
-                extra.append('unreadable sqlite cache: %s' % type(ex).__name__)
+                extra.append('unreadable %s cache: %s' % (self.kind, type(ex).__name__))
             return out, extra
         for root, _dirs, files in os.walk(self.cache_dir):
             for fn in files:
@@ -380,7 +389,9 @@ class Source(object):
         if entry is not None:
             entry['res'] = ('fetch', main)
             s.note_under_lock(entry, blocks)
-        return ImageSource(img, image_opts=w.opts, cacheable=True)
+        # tiles the upstream marks as not to be cached (error fill images, Cache-Control): only in bulk answers, per tile
+        cacheable = not (w.bulk and any(b in w.uncacheable for b in blocks))
+        return ImageSource(img, image_opts=w.opts, cacheable=cacheable)
 
 
 # ----------------------------------------------------------------------------- scheduler
@@ -477,6 +488,38 @@ class Sched(object):
         c = self.world.coord_of(dst) or (-1, -1, -1)
         entry['res'] = ('write', c, os.path.basename(dst))
         return os.rename(src, dst)
+
+    def w_lockdir(self, what, func, path):
+        """cleanup_lockdir: os.path.isfile / os.path.getmtime of a lock file (gated only in the clean-up family)"""
+        if self.tid() is None or not self.world.gate_cleanup:
+            return func(path)
+        entry = self.gate(what)
+        try:
+            r = func(path)
+        except OSError as ex:
+            entry['res'] = (what, os.path.basename(path), type(ex).__name__)
+            raise
+        entry['res'] = (what, os.path.basename(path), bool(r) if what == 'lisfile' else 'mtime')
+        return r
+
+    def w_bundle(self, what, real, bundle, fh, *a):
+        """compact cache: one of the raw writes of BundleV2._store_tile (data append, index entry, header); made visible
+        to readers when it returns (flush)"""
+        if self.tid() is None or self.world.kind != 'compact':
+            return real(bundle, fh, *a)
+        entry = self.gate('bwrite')
+        r = real(bundle, fh, *a)
+        fh.flush()
+        entry['res'] = ('bwrite', what)
+        return r
+
+    def w_bundle_read(self, what, real, bundle, *a, **kw):
+        if self.tid() is None or self.world.kind != 'compact':
+            return real(bundle, *a, **kw)
+        entry = self.gate('read')
+        r = real(bundle, *a, **kw)
+        entry['res'] = ('read', what, bool(r))
+        return r
 
     def w_plain_exists(self, path):
         """os.path.exists of another cache module (sqlite: is the level file initialised?)"""
@@ -709,6 +752,34 @@ class Patches(object):
             s = me.cur()
             return s.w_write_atomic(filename, data) if s else real_write_atomic(filename, data)
 
+        import mapproxy.cache.compact as CP
+        self.CP = CP
+        self.saved['CP'] = {}
+        for name in ('_append_tile', '_update_tile_offset', '_update_metadata'):
+            real_m = getattr(CP.BundleV2, name)
+            self.saved['CP'][name] = real_m
+
+            def wrapped(bundle, fh, *a, _real=real_m, _name=name):
+                s = me.cur()
+                return s.w_bundle(_name, _real, bundle, fh, *a) if s else _real(bundle, fh, *a)
+            setattr(CP.BundleV2, name, wrapped)
+        for name in ('load_tiles', 'is_cached'):
+            real_m = getattr(CP.BundleV2, name)
+            self.saved['CP'][name] = real_m
+
+            def wrapped_r(bundle, *a, _real=real_m, _name=name, **kw):
+                s = me.cur()
+                return s.w_bundle_read(_name, _real, bundle, *a, **kw) if s else _real(bundle, *a, **kw)
+            setattr(CP.BundleV2, name, wrapped_r)
+
+        def lisfile(p):
+            s = me.cur()
+            return s.w_lockdir('lisfile', real_os.path.isfile, p) if s else real_os.path.isfile(p)
+
+        def lmtime(p):
+            s = me.cur()
+            return s.w_lockdir('lmtime', real_os.path.getmtime, p) if s else real_os.path.getmtime(p)
+
         def rm(p):
             s = me.cur()
             return s.w_remove(p) if s else real_os.remove(p)
@@ -741,7 +812,7 @@ class Patches(object):
         FS.os = Proxy(real_os, open=fs_open, rename=fs_rename)
         MB.os = Proxy(real_os, path=Proxy(real_os.path, exists=mb_exists))
         F.write_atomic = wa
-        L.os = Proxy(real_os, remove=rm)
+        L.os = Proxy(real_os, remove=rm, path=Proxy(real_os.path, isfile=lisfile, getmtime=lmtime))
         def vtime():
             s = me.cur()
             return s.world.clock if (s and s.world.vclock) else real_time.time()
@@ -755,6 +826,8 @@ class Patches(object):
         L.os, L.time = self.saved['L.os'], self.saved['L.time']
         F.os, F.write_atomic = self.saved['F.os'], self.saved['F.write_atomic']
         self.MB.os, self.FS.os = self.saved['MB.os'], self.saved['FS.os']
+        for name, f in self.saved['CP'].items():
+            setattr(self.CP.BundleV2, name, f)
         L.FileLock._try_lock = self.saved['try']
         self.sched = None
 
@@ -951,6 +1024,74 @@ def timeout_family(rng, count):
     return out
 
 
+def cleanup_family(rng, count):
+    """the periodic clean-up of the lock directory (every 50th TileLocker.lock of a process) runs in a request for meta tile
+    B while the lock file of meta tile A is removed by its owner between os.path.isfile and os.path.getmtime"""
+    out = []
+    for v in range(count):
+        conf = {'extent': (32, 32), 'res': (8, 4, 2, 1), 'origin': rng.choice(['ll', 'ul']), 'cleanup': True,
+                'meta': rng.choice([(1, 1), (2, 2), (2, 1)]), 'procs': False}
+        z = rng.choice([2, 3])
+        n = 2 ** z
+        cells = [(x, y, z) for x in range(0, n, 2) for y in range(0, n, 2)]
+        a, b = rng.sample(cells, 2)
+        reqs = [[a], [b]]
+        if v % 2 == 0:
+            sched = [('until', 0, 'fetch'), ('until', 1, 'lmtime')] + [0] * 30 + [1] * 30
+        else:
+            sched = [('until', 0, 'fetch'), ('until', 1, 'lisfile')] + gen_schedule(rng, 2, 60)
+        out.append((conf, reqs, [], sched, 'lockdir-cleanup'))
+    return out
+
+
+def uncacheable_family(rng, count):
+    """bulk meta tiles, the upstream marks one tile Y of the meta tile as not cacheable: the meta tile stays incomplete, a
+    request that waited for tile X finds 'not all cached' under the lock although X was stored meanwhile"""
+    out = []
+    for v in range(count):
+        conf = {'extent': (32, 32), 'res': (8, 4, 2, 1), 'origin': rng.choice(['ll', 'ul']), 'bulk': True,
+                'meta': rng.choice([(2, 2), (2, 1)]), 'procs': v % 3 == 0}
+        z = rng.choice([2, 3])
+        n = 2 ** z
+        x0, y0 = rng.randrange(0, n, 2), rng.randrange(0, n, 2)
+        X, Y = (x0, y0, z), (x0 + 1, y0, z)
+        if v % 2:
+            X, Y = Y, X
+        conf['uncacheable'] = [Y]
+        m = rng.choice([2, 3])
+        reqs = [[X] for _ in range(m)]
+        if v % 4 == 3:
+            reqs[-1] = [Y]
+        if v % 2 == 0:
+            sched = [i for i in range(m) for _ in range(2)] + [i for i in range(m) for _ in range(40)]
+        else:
+            sched = gen_schedule(rng, m, 100)
+        out.append((conf, reqs, [], sched, 'uncacheable-tile'))
+    return out
+
+
+def compact_family(rng, count):
+    """compact cache (version 2): readers take no lock; the raw writes of one tile store (data append, index entry, header)
+    are gated one by one and made visible as they return"""
+    out = []
+    for v in range(count):
+        conf = {'extent': (32, 32), 'res': (8, 4, 2, 1), 'origin': rng.choice(['ll', 'ul']), 'kind': 'compact',
+                'meta': rng.choice([(1, 1), (1, 1), (2, 2), (2, 1)]), 'procs': v % 3 == 0}
+        m = rng.choice([2, 2, 3])
+        z = rng.choice([1, 2, 3])
+        n = 2 ** z
+        t = (rng.randrange(n), rng.randrange(n), z)
+        reqs = [[t] for _ in range(m)]
+        k = v % 4
+        if k < 3:
+            # requester 0 creates the tile and is stopped after k+... of its raw writes; then the others look
+            sched = [('until', 0, 'bwrite')] + [0] * (k + 1) + [i for i in range(1, m) for _ in range(6)] + [i % m for i in range(80)]
+        else:
+            sched = gen_schedule(rng, m, 80)
+        out.append((conf, reqs, None if v % 5 == 4 else [], sched, 'compact-cache'))
+    return out
+
+
 def sqlite_family(rng, count):
     """sqlite cache (one MBTiles file per level, created on first use), every requester with its own cache objects like a
     worker process: the first requests of a level initialise its file concurrently"""
@@ -997,6 +1138,10 @@ def corpus_cases():
                     'kind': d['conf'].get('kind', 'file'), 'bulk': bool(d['conf'].get('bulk'))}
             if d['conf'].get('lock_timeout') is not None:
                 conf['lock_timeout'] = d['conf']['lock_timeout']
+            if d['conf'].get('uncacheable'):
+                conf['uncacheable'] = [tuple(t) for t in d['conf']['uncacheable']]
+            if d['conf'].get('cleanup'):
+                conf['cleanup'] = True
             if 'stale' in d:
                 conf['stale'] = [tuple(t) for t in d['stale']]
             out.append((conf, [[tuple(t) for t in r] for r in d['requests']], [tuple(t) for t in d.get('initial', [])],
@@ -1084,6 +1229,10 @@ def run_one(ctx, patches, conf, reqs, initial, schedule, seq_no, rootdir, rng):
     world.seed(initial)
     world.seed_stale(world.stale)
     world.seed_decoys(sorted(set(u for r in reqs for t in r for u in world.my_members(world.my_main(tuple(t))))))
+    if world.gate_cleanup:
+        # the second TileLocker.lock() call of this run is the 50th of the process: it runs cleanup_lockdir
+        import mapproxy.util.lock as L
+        L._cleanup_counter = 48
     s = Sched(world, reqs)
     world.sched = s
     patches.sched = s
@@ -1132,6 +1281,8 @@ def oracle(world, s, reqs, initial, hang, final, extra, left):
         if n > 1:
             dup[world.my_main(b)] = max(dup.get(world.my_main(b), 0), n)
     for mt, n in sorted(dup.items()):
+        if any(u in world.uncacheable for u in world.my_members(mt)):
+            continue        # the upstream marked a tile of this meta tile as not cacheable: it stays incomplete and is created again
         out.append(('duplicate-fetch', 'the upstream was asked %d times for meta tile %r' % (n, mt)))
     # final cache
     init = set(initial)
@@ -1144,6 +1295,7 @@ def oracle(world, s, reqs, initial, hang, final, extra, left):
             if tuple(t) not in init:
                 renewed.update(world.my_members(world.my_main(tuple(t))))
     expect |= renewed | set(world.stale)
+    expect -= world.uncacheable
     if not hang:
         for c in sorted(expect - set(final)):
             out.append(('final-cache-missing', 'tile %r is not in the cache after all requests finished' % (c,)))
@@ -1180,8 +1332,8 @@ def run_threads(ctx, reload_flag):
             todo.append(c)
     todo += race_family(rng, ctx.n(24, 200))
     todo += stale_family(rng, ctx.n(40, 300))
-    todo += contention_family(rng, ctx.n(40, 400))
-    for _ in range(ctx.n(260, 3500)):
+    todo += contention_family(rng, ctx.n(30, 400))
+    for _ in range(ctx.n(200, 3000)):
         conf = gen_conf(rng)
         m = rng.choice([2, 2, 3, 3, 4, 5, 6])
         todo.append((conf, None, None, gen_schedule(rng, m, rng.choice([10, 30, 60, 120])) + [m - 1], 'random'))
@@ -1196,16 +1348,22 @@ def run_threads(ctx, reload_flag):
             exh.append((conf, [[(1, 1, 1)] for _ in range(m)], [], list(seq), 'exhaustive'))
     todo += exh
     todo += link_family(rng, ctx.n(40, 300))
-    todo += sqlite_family(rng, ctx.n(50, 250))
+    todo += sqlite_family(rng, ctx.n(30, 250))
     todo += bulk_family(rng, ctx.n(40, 300))
     todo += timeout_family(rng, ctx.n(30, 200))
+    todo += cleanup_family(rng, ctx.n(20, 150))
+    todo += uncacheable_family(rng, ctx.n(30, 200))
+    todo += compact_family(rng, ctx.n(40, 300))
 
     terms, descr = [], []
     reported = set()
     with Patches() as patches:
         for seq_no, (conf, reqs, initial, schedule, origin) in enumerate(todo):
+            _t0 = time.time()
             world, s, reqs, initial, hang, final, extra, left, ok_req = run_one(
                 ctx, patches, conf, reqs, initial, schedule, seq_no, rootdir, rng)
+            ctx.notes_ms = getattr(ctx, 'notes_ms', {})
+            ctx.notes_ms[origin.split(':')[0]] = ctx.notes_ms.get(origin.split(':')[0], 0) + int((time.time() - _t0) * 1000)
             trace = s.trace
             refused = sum(1 for e in trace if e['res'] and e['res'][0] == 'lock' and not e['res'][2])
             under = count_found_later(trace)
@@ -1219,7 +1377,9 @@ def run_threads(ctx, reload_flag):
                                               'meta': list(conf['meta']), 'expire': bool(conf.get('expire')),
                                               'dims': conf.get('dims'), 'procs': bool(conf.get('procs')),
                                               'kind': conf.get('kind', 'file'), 'bulk': bool(conf.get('bulk')),
-                                              'lock_timeout': conf.get('lock_timeout')},
+                                              'lock_timeout': conf.get('lock_timeout'),
+                                              'uncacheable': [list(t) for t in conf.get('uncacheable') or []],
+                                              'cleanup': bool(conf.get('cleanup'))},
                    'stale': [list(t) for t in world.stale],
                    'requests': [[list(t) for t in r] for r in reqs], 'initial': [list(t) for t in initial],
                    'schedule': list(schedule), 'trace': compact_trace(trace),
@@ -1230,7 +1390,7 @@ def run_threads(ctx, reload_flag):
                      {'conf': rep['conf'], 'requests': rep['requests'], 'initial': rep['initial'], 'steps': len(trace),
                       'trace_head': compact_trace(trace[:30])})
             ctx.count('origin=' + origin.split(':')[0])
-            ctx.count('kind=' + world.kind + (',bulk-meta-tiles' if world.bulk else '') + (',lock-timeouts' if world.vclock else '') + (',own-objects-per-requester' if world.procs else '') + (',dimensions' if world.dims else ''))
+            ctx.count('kind=' + world.kind + (',uncacheable-tile' if world.uncacheable else '') + (',lockdir-cleanup' if world.gate_cleanup else '') + (',bulk-meta-tiles' if world.bulk else '') + (',lock-timeouts' if world.vclock else '') + (',own-objects-per-requester' if world.procs else '') + (',dimensions' if world.dims else ''))
             ctx.count('mode=' + ('meta' if world.meta else 'single') + (',expire' if world.expire else ''))
             ctx.count('expired-tiles', len(world.stale))
             ctx.count('requesters=%d' % len(reqs))
@@ -1267,6 +1427,7 @@ def run_threads(ctx, reload_flag):
                 llit(sorted(final.items()), lambda kv: '(%s, %s)' % (clit(kv[0]), zlit(kv[1]))),
                 llit(ups, clit)))
             descr.append(rep)
+    ctx.notes.append('milliseconds spent running the implementation, by family: %r' % (getattr(ctx, 'notes_ms', {}),))
     ctx.corr_check('creator_trace', 'Creator', CASE_TYPE, terms, CHECKER, lambda i: descr[i], shard=120, defs=DEFS)
 
 
